@@ -11,9 +11,16 @@
 //        KIND: assign (subarray& = subarray const&), assign_const (= const_subarray const&), assign_rv (subarray&& = lvalue),
 //              move (= element_moved()), swap, assign_move (= std::move(s)), assign_rv_rv (rvalue = rvalue),
 //              assign_elems (elements() = elements()), assign_elems_const (elements() = const elements())
+//        further KINDs: swap_member, assign_elems_named (named range = const range), swap_elems, swap_elems_named, and the
+//              array_ref overloads over whole roots: aref_lv, aref_rv, aref_conv_lv, aref_conv_rv, aref_from_rv, aref_rv_from_rv,
+//              aref_from_array
+//   case ID / cap N / droot D f l ... / dop ... / salias D f l ... / sop ... / asg KIND / end
+//        salias: the source root is an array_ref over the DESTINATION's buffer (cap N = at least N elements): aliasing operands
+//   ... / xop NAME args / ...             (after the ops of an index case) a view-forming call outside its domain, in a child
 //   case ID / probe NAME / end            fixed programs for the known tensions (see vlib/c20.py)
 // Output: S lines (shapes, as h_views), D / A / K result lines, L info lines (file:line of the assertion), E.
 #include "common/viewprog.hpp"
+#include "common/c20_site_probes.hpp"
 
 #include <fcntl.h>
 #include <sys/resource.h>
@@ -25,12 +32,18 @@
 #include <functional>
 #include <regex>
 
+#ifdef C20_COVERAGE
+extern "C" void __gcov_dump(void);  // the children leave through _exit: write their counters first (site-coverage build only)
+extern "C" void __gcov_reset(void);
+#endif
+
 struct ChildResult {
 	std::string res;   // abort | ok | asan | sigN | abort-other | exitN
 	std::string file;  // assertion file (path as printed by glibc) or "-"
 	long line = 0;
 	int rank = -1;     // dimensionality named in the assertion's function signature, when present
 	std::string expr;  // asserted expression (shortened)
+	std::string hash;  // what the child reported after finishing (assignment statements), or "-"
 };
 
 static ChildResult in_child(std::function<void()> const& body) {
@@ -47,7 +60,13 @@ static ChildResult in_child(std::function<void()> const& body) {
 		dup2(fds[1], 2);
 		int const devnull = open("/dev/null", O_WRONLY);
 		if(devnull >= 0) { dup2(devnull, 1); }
-		body();
+#ifdef C20_COVERAGE
+		__gcov_reset();  // count only what the child itself executes
+#endif
+		try { body(); } catch(dv::unsupported const&) { _exit(76); }  // never return into the parent's read loop
+#ifdef C20_COVERAGE
+		__gcov_dump();
+#endif
 		_exit(0);
 	}
 	close(fds[1]);
@@ -63,6 +82,12 @@ static ChildResult in_child(std::function<void()> const& body) {
 	waitpid(pid, &status, 0);
 	ChildResult r;
 	r.file = "-";
+	r.hash = "-";
+	{
+		static std::regex const reh(R"(HASH (\d+))");
+		std::smatch mh;
+		if(std::regex_search(err, mh, reh)) { r.hash = mh[1]; }
+	}
 	bool const asan = err.find("AddressSanitizer") != std::string::npos || err.find("runtime error:") != std::string::npos;
 	static std::regex const re(R"(: ([^\s:]+):(\d+): (.*): Assertion `(.*)' failed\.)");
 	std::smatch m;
@@ -132,8 +157,27 @@ struct Assigner : dv::Typed<int, Assigner> {
 		else if(kind == "swap") { swap(std::move(d), std::move(s)); }
 		else if(kind == "assign_move") { d = std::move(s); }
 		else if(kind == "assign_rv_rv") { std::move(d) = std::move(s); }
+		else if(kind == "swap_member") { std::move(d).swap(std::move(s)); }
 		else if(kind == "assign_elems") { d.elements() = s.elements(); }
 		else if(kind == "assign_elems_const") { d.elements() = std::as_const(s).elements(); }
+		else if(kind == "assign_elems_named") { auto&& e = d.elements(); e = std::as_const(s).elements(); }
+		else if(kind == "swap_elems") { d.elements().swap(s.elements()); }
+		else if(kind == "swap_elems_named") { auto&& e = d.elements(); auto&& f = s.elements(); e.swap(f); }
+		else if(kind.rfind("aref_", 0) == 0) {  // the array_ref overloads (contiguous references over whole roots)
+			using CP = int const*;
+			multi::array_ref<int, D> dref(d.base(), d.extensions());
+			multi::array_ref<int, D> sref(s.base(), s.extensions());
+			if(!(dref.layout() == d.layout()) || !(sref.layout() == s.layout())) { throw dv::unsupported("aref on a non-contiguous view"); }
+			multi::array_ref<int, D, CP> cref(CP(s.base()), s.extensions());
+			if(kind == "aref_lv") { dref = sref; }                                  // operator=(array_ref const&) &
+			else if(kind == "aref_rv") { std::move(dref) = sref; }                  // operator=(array_ref const&) &&
+			else if(kind == "aref_conv_lv") { dref = cref; }                        // template operator=(array_ref<TT, DD, As...> const&) &
+			else if(kind == "aref_conv_rv") { std::move(dref) = cref; }             // template ... &&
+			else if(kind == "aref_from_rv") { dref = std::move(sref); }             // operator=(array_ref&&) &
+			else if(kind == "aref_rv_from_rv") { std::move(dref) = std::move(sref); }  // operator=(array_ref&&) &&
+			else if(kind == "aref_from_array") { multi::array<int, D> A(sref); dref = A; }
+			else { throw dv::unsupported("unknown asg " + kind); }
+		}
 		else { throw dv::unsupported("unknown asg " + kind); }
 	}
 };
@@ -286,7 +330,33 @@ static bool run_probe(std::string const& name) {
 		volatile int x = S[S.extension().first()][2]; (void)x;
 		return true;
 	}
-	return false;
+	// ---- aliasing operands (seed C20-s4): two named views of one array ----
+	if(name == "assign_aliasing_same_first_2d") {  // mismatched: 2x3 := 3x3, both views start at A[0][0] with the strides of A
+		multi::array<int, 2> A({4, 4}, 1);
+		auto&& dst = A({0, 2}, {0, 3});
+		auto&& src = A({0, 3}, {0, 3});
+		dst = src;
+		return true;
+	}
+	if(name == "assign_aliasing_same_first_1d") {  // mismatched: 2 := 4, both views start at V[2]
+		multi::array<int, 1> V({6}, 1);
+		auto&& dst = V({2, 4});
+		auto&& src = V({2, 6});
+		dst = src;
+		return true;
+	}
+	if(name == "assign_aliasing_same_view") {  // valid: the very same elements through two view objects
+		multi::array<int, 2> A({4, 4}, 0);
+		for(int k = 0; k != 16; ++k) { A.data_elements()[k] = k; }
+		auto&& v1 = A({0, 2}, {0, 3});
+		auto&& v2 = A({0, 2}, {0, 3});
+		v1 = v2;
+		swap(std::move(v1), std::move(v2));
+		v1 = std::move(v2);
+		if(A[0][0] != 0 || A[1][2] != 6 || A[3][3] != 15) { _exit(78); }
+		return true;
+	}
+	return c20sp::run(name);
 }
 
 int main() {
@@ -295,9 +365,12 @@ int main() {
 	Root root;
 	int step = 0;
 	int ndeath = 0;
+	int nasg = 0;
+	int nxop = 0;
 	bool dead = false;
 	std::vector<int> bufd;
 	std::vector<int> bufs;
+	idx_t cap = 0;
 	std::unique_ptr<dv::Base<int>> dst;
 	std::unique_ptr<dv::Base<int>> src;
 	while(std::getline(std::cin, line)) {
@@ -310,9 +383,14 @@ int main() {
 				is >> id;
 				step = 0;
 				ndeath = 0;
+				nasg = 0;
+				nxop = 0;
 				dead = false;
 				dst.reset();
 				src.reset();
+				cap = 0;
+			} else if(kw == "cap") {
+				is >> cap;
 			} else if(kw == "root") {
 				int D = 0;
 				is >> D;
@@ -348,14 +426,34 @@ int main() {
 				if(r.res == "abort" && r.rank >= 0) { std::cout << r.rank; } else { std::cout << '-'; }
 				std::cout << '\n';
 				if(r.res != "ok") { info_line(id, ndeath, r); }
-			} else if(kw == "droot" || kw == "sroot") {
+			} else if(kw == "xop") {  // a view-forming call outside its documented domain: must be stopped by an assertion
+				if(dead) { continue; }
+				std::string rest;
+				std::getline(is, rest);
+				std::istringstream is2(rest);
+				auto op = dv::parse_op(is2);
+				++nxop;
+				auto r = in_child([&] {
+					auto nv = root.view->apply(op);
+					volatile auto n = nv->rank(); (void)n;
+				});
+				std::string txt;
+				{ std::istringstream w(rest); std::string t; while(w >> t) { txt += (txt.empty() ? "" : "_") + t; } }
+				std::cout << "O " << id << ' ' << nxop << " op=" << txt << " res=" << (r.res == "exit76" ? std::string("unsupported") : r.res) << '\n';
+				if(r.res != "ok") { info_line(id, 1000 + nxop, r); }
+			} else if(kw == "droot" || kw == "sroot" || kw == "salias") {
 				int D = 0;
 				is >> D;
 				std::vector<std::pair<idx_t, idx_t>> e(static_cast<std::size_t>(D));
 				idx_t n = 1;
 				for(auto& p : e) { is >> p.first >> p.second; n *= (p.second - p.first); }
+				if(kw == "salias") {  // a second array_ref over the destination's buffer
+					if(static_cast<std::size_t>(n) + 1 > bufd.size()) { throw dv::unsupported("salias beyond the capacity of the destination buffer"); }
+					src = make_ref_dyn(D, bufd.data(), e);
+					continue;
+				}
 				auto& buf = (kw == "droot") ? bufd : bufs;
-				buf.assign(static_cast<std::size_t>(n) + 1, 0);
+				buf.assign(static_cast<std::size_t>(std::max(n, kw == "droot" ? cap : idx_t{0})) + 1, 0);
 				for(std::size_t k = 0; k != buf.size(); ++k) { buf[k] = static_cast<int>(k); }
 				if(kw == "droot") { dst = make_ref_dyn(D, buf.data(), e); } else { src = make_ref_dyn(D, buf.data(), e); }
 			} else if(kw == "dop" || kw == "sop") {
@@ -372,9 +470,26 @@ int main() {
 				a.kind = kind;
 				a.src = src.get();
 				if(dst->rank() != src->rank()) { throw dv::unsupported("rank mismatch"); }
-				auto r = in_child([&] { dst->accept(a); });
-				std::cout << "A " << id << " kind=" << kind << " res=" << r.res << '\n';
-				if(r.res != "ok") { info_line(id, 0, r); }
+				auto r = in_child([&] {
+					dst->accept(a);
+					// the statement ran to completion: report the contents of both buffers (compared across the three build
+					// configurations for valid statements: a copy or swap that lives inside an assertion disappears under NDEBUG)
+					unsigned long long h = 1469598103934665603ULL;
+					for(auto const* b : {&bufd, &bufs}) { for(int x : *b) { h = (h ^ static_cast<unsigned long long>(static_cast<unsigned>(x))) * 1099511628211ULL; } }
+					std::string const msg = "HASH " + std::to_string(h) + "\n";
+					if(write(2, msg.data(), msg.size()) < 0) { _exit(75); }
+				});
+				++nasg;
+				if(r.res == "exit76") { r.res = "unsupported"; }  // e.g. an array_ref statement on a collapsed (empty) layout: not judged
+				std::cout << "A " << id << " kind=" << kind << " res=" << r.res;
+				// what the library itself reports about the two operands (for the model-independent monitor)
+				for(auto* v : {dst.get(), src.get()}) {
+					auto ex = v->extensions();
+					std::cout << (v == dst.get() ? " dext=" : " sext=");
+					for(std::size_t k = 0; k != ex.size(); ++k) { std::cout << (k ? "," : "") << ex[k].first << ':' << ex[k].second; }
+				}
+				std::cout << " dnel=" << dst->num_elements() << " snel=" << src->num_elements() << " hash=" << (r.res == "ok" ? r.hash : std::string("-")) << '\n';
+				if(r.res != "ok" && r.res != "unsupported") { info_line(id, nasg, r); }
 			} else if(kw == "probe") {
 				std::string name;
 				is >> name;
